@@ -176,8 +176,10 @@ class Gen:
         if fn in self.DANGER and tainted:
             return False
         self.calls.append(s)
+        grows = fn in ("basic_pow", "ntheory_factorial", "ntheory_fibonacci", "ntheory_lucas", "ntheory_binomial", "basic_gamma",
+                       "basic_exp", "basic_mul_vec")
         for o in out:
-            self.big[o] = tainted or lit_big
+            self.big[o] = tainted or lit_big or grows
         if fn in ("vecbasic_push_back", "vecbasic_set", "setbasic_insert", "mapbasicbasic_insert", "basic_get_args",
                   "basic_free_symbols", "basic_function_symbols"):
             for c in cs:
